@@ -85,6 +85,84 @@ func c17Pick(method string) func(t reflect.Type, pos int) []namedValue {
 	}
 }
 
+// observe renders what every argument-free query of x answers (pointers by address): the view a user
+// has of an instance. Used for bystanders: a call on one instance must not be visible on another.
+func observe(x any, skipIdentity bool) string {
+	pv := reflect.New(reflect.TypeOf(x))
+	pv.Elem().Set(reflect.ValueOf(x))
+	var b strings.Builder
+	name := "Stack"
+	if _, ok := x.(stackage.Condition); ok {
+		name = "Condition"
+	}
+	for _, me := range methodsOf(x, name) {
+		if me.Type.NumIn() != 0 || !c11IsQuery(me.Name) || me.Type.NumOut() == 0 {
+			continue
+		}
+		if skipIdentity && me.Name == "Addr" {
+			continue
+		}
+		res, p := callMethod(pv, me.Name, nil)
+		b.WriteString(me.Name + "=")
+		if p != "" {
+			b.WriteString("panic")
+		}
+		for _, r := range res {
+			switch r.Kind() {
+			case reflect.Ptr, reflect.Func, reflect.Map, reflect.Chan:
+				fmt.Fprintf(&b, "%p", r.Interface())
+			default:
+				if r.Type() == stackType || r.Type() == condType {
+					b.WriteString(describeValue(r))
+				} else {
+					fmt.Fprintf(&b, "%v", r.Interface())
+				}
+			}
+			b.WriteString(",")
+		}
+		b.WriteString(";")
+	}
+	return b.String()
+}
+
+func c17WantsBystanders(cs c17Case) bool {
+	return cs.Recv != "Auxiliary" && (cs.State == "init-only" || !c11IsQuery(cs.Method))
+}
+
+type c17Bystanders struct {
+	vals   []any
+	before []string
+	fresh  string
+}
+
+func c17FreshInitOnly() any {
+	var c stackage.Condition
+	c.Init()
+	return c
+}
+
+func newBystanders() *c17Bystanders {
+	b := &c17Bystanders{vals: []any{c17FreshInitOnly(), stackage.Cond("by", stackage.Eq, "stander"), stackage.And().Push("by", "stander")}}
+	for _, v := range b.vals {
+		b.before = append(b.before, observe(v, false))
+	}
+	b.fresh = observe(c17FreshInitOnly(), true)
+	return b
+}
+
+var c17BystanderNames = []string{"an Init()-only Condition", "an unrelated Condition", "an unrelated Stack"}
+
+func (b *c17Bystanders) check(c *Ctx, cs c17Case, desc string) {
+	for i, v := range b.vals {
+		if after := observe(v, false); after != b.before[i] {
+			c.Violation("bystander-changed:"+cs.Recv+"."+cs.Method, fmt.Sprintf("%s changed what %s (never passed to the call) answers:\n before %s\n after  %s", desc, c17BystanderNames[i], b.before[i], after), cs, len(desc))
+		}
+	}
+	if after := observe(c17FreshInitOnly(), true); after != b.fresh {
+		c.Violation("defaults-changed:"+cs.Recv+"."+cs.Method, fmt.Sprintf("%s changed what a newly made Init()-only Condition answers:\n before %s\n after  %s", desc, b.fresh, after), cs, len(desc))
+	}
+}
+
 type c17Diff struct {
 	mu  sync.Mutex
 	res map[string]map[string]string // recv|method|args -> state -> result text
@@ -100,7 +178,16 @@ func c17Run(c *Ctx, cs c17Case, args []reflect.Value, diff *c17Diff, count bool)
 		c.Transitions.Add(1)
 		c.Traces.Add(1)
 	}
+	var by *c17Bystanders
+	if diff == nil && c17WantsBystanders(cs) {
+		// only in the sequential pass (and in replays): with other calls running alongside, a change
+		// to shared state would be blamed on the wrong call
+		by = newBystanders()
+	}
 	res, p := callMethod(pv, cs.Method, args)
+	if by != nil && p == "" {
+		by.check(c, cs, desc)
+	}
 	if p != "" {
 		if strings.Contains(p, "harness/gen.go") && strings.Contains(p, "ptrOp") {
 			return
@@ -326,6 +413,54 @@ func c17FreeReset(c *Ctx) int {
 			}
 		}
 	}
+	// long stacks (beyond any preallocation constant), also ones that have shrunk again, fully configured
+	for _, kind := range kindNames {
+		for _, ln := range []int{1023, 1024, 1025, 1500, 2500} {
+			for _, shrink := range []bool{false, true} {
+				for variant := 0; variant < 3; variant++ {
+					n++
+					c.Transitions.Add(1)
+					s := newStackKind(kind)
+					if variant == 2 {
+						s = newStackKind(kind, ln+10)
+					}
+					if variant > 0 {
+						decorate(s).SetMutex().SetNegativeIndices(true).SetForwardIndices(true).SetPushPolicy(pp).SetValidityPolicy(pp)
+					}
+					vals := make([]any, ln)
+					for i := range vals {
+						if i%7 != 3 {
+							vals[i] = i
+						}
+					}
+					s.Push(vals...)
+					if shrink {
+						for s.Len() > 3 {
+							if _, ok := s.Pop(); !ok {
+								break
+							}
+						}
+					}
+					d := stackage.VerifDump(s)
+					d.Slots, d.SliceLen, d.SliceCap = nil, 1, 0
+					before := d.Key(false)
+					desc := fmt.Sprintf("Reset on %s after %d pushes (shrunk again: %v) variant %d", kind, ln, shrink, variant)
+					if p := noPanic(func() { s.Reset() }); p != "" {
+						c.Violation("panic:Reset", desc+" panicked: "+p, nil, ln)
+						continue
+					}
+					if s.Len() != 0 || !s.IsEmpty() {
+						c.Violation("Reset:not-empty", fmt.Sprintf("%s: Len()=%d afterwards", desc, s.Len()), nil, ln)
+					}
+					a := stackage.VerifDump(s)
+					a.SliceCap = 0
+					if after := a.Key(false); after != before {
+						c.Violation("Reset:configuration-changed", fmt.Sprintf("%s changed the configuration:\n before %s\n after  %s", desc, before, after), nil, ln)
+					}
+				}
+			}
+		}
+	}
 	cd := stackage.Cond("k", stackage.Eq, "v").SetReadOnly(true)
 	if err := cd.Free(); err == nil || !cd.IsInit() {
 		c.Violation("Free:read-only", fmt.Sprintf("Free on a read-only Condition returned %v, IsInit=%v", err, cd.IsInit()), nil, 0)
@@ -359,6 +494,14 @@ func init() {
 		}
 		diff := &c17Diff{res: map[string]map[string]string{}}
 		parallelFor(len(jobs), func(i int) { c17Run(c, jobs[i].cs, jobs[i].args, diff, true) })
+		nb := 0
+		for i := range jobs { // one call at a time, each watched by bystander instances
+			if c17WantsBystanders(jobs[i].cs) {
+				nb++
+				c17Run(c, jobs[i].cs, jobs[i].args, nil, false)
+			}
+		}
+		c.Bound["calls_watched_by_bystanders"] = nb
 		// differential: zero-valued and freed instances answer identically
 		for k, m := range diff.res {
 			z, okz := m["zero"]
@@ -372,7 +515,7 @@ func init() {
 		nr := c17FreeReset(c)
 		c.States.Store(int64(len(jobs) + nf + nr))
 		c.Exhaustive = true
-		c.Rule = "every exported method in the method sets of *Stack, *Condition and Auxiliary (reflection) x argument tuples from the typed catalogue (awkward values wherever `any` is taken) x receiver states {zero value, freed, freed twice; Init()-only Condition; nil / empty Auxiliary}; every exported package-level function (table generated from /repo's sources at build time) x awkward arguments; Reset on every nil pattern of length 0..4 x kinds x capacity x three configuration variants; Free on read-only and writable instances. Oracle: no panic, handle still zero (except Marshal / Condition.Init), zero results (bool false except IsZero/IsEmpty/IsPadded, 0, nil, String()==\"\", error from Valid/IsEqual), zero and freed instances answer identically. non-trivial = distinct calls that returned"
+		c.Rule = "every exported method in the method sets of *Stack, *Condition and Auxiliary (reflection) x argument tuples from the typed catalogue (awkward values wherever `any` is taken) x receiver states {zero value, freed, freed twice; Init()-only Condition; nil / empty Auxiliary}; every exported package-level function (table generated from /repo's sources at build time) x awkward arguments; Reset on every nil pattern of length 0..4 x kinds x capacity x three configuration variants, and on stacks that held 1023..2500 elements (also shrunk again); for calls on an Init()-only Condition and for every non-query call: three bystander instances and a newly made Init()-only Condition answer every argument-free query as before; Free on read-only and writable instances. Oracle: no panic, handle still zero (except Marshal / Condition.Init), zero results (bool false except IsZero/IsEmpty/IsPadded, 0, nil, String()==\"\", error from Valid/IsEqual), zero and freed instances answer identically. non-trivial = distinct calls that returned"
 		c.Bound["method_calls"] = len(jobs)
 		c.Bound["function_calls"] = nf
 		c.Bound["reset_free_cases"] = nr
